@@ -200,7 +200,42 @@ func c05DeletesChallengeBefore(p *pkgInfo, blk *ast.BlockStmt, pos token.Pos) bo
 		}
 		return true
 	})
+	// or: `if !state.consumeLoginChallenge(authData.Username, localAuth) { …; return }` — the compare-and-remove
+	// helper (it deletes the entry of its first argument; who deletes what is pinned by c16_challenge_sites),
+	// with the losing request leaving the handler
+	ast.Inspect(blk, func(n ast.Node) bool {
+		is, ok := n.(*ast.IfStmt)
+		if !ok || is.Pos() >= pos || is.End() > pos {
+			return true
+		}
+		if p.str(is.Cond) == "!state.consumeLoginChallenge(authData.Username, localAuth)" && len(is.Body.List) > 0 {
+			if _, ok := is.Body.List[len(is.Body.List)-1].(*ast.ReturnStmt); ok && c05HelperDeletesFirstArg(p) {
+				found = true
+			}
+		}
+		return true
+	})
 	return found
+}
+
+// consumeLoginChallenge(username, used) must delete state.localAuthData[username]
+func c05HelperDeletesFirstArg(p *pkgInfo) bool {
+	fd := p.funcs["consumeLoginChallenge"]
+	if fd == nil || fd.Body == nil || fd.Type.Params == nil || len(fd.Type.Params.List) == 0 || len(fd.Type.Params.List[0].Names) == 0 {
+		return false
+	}
+	arg := fd.Type.Params.List[0].Names[0].Name
+	ok := false
+	ast.Inspect(fd.Body, func(n ast.Node) bool {
+		if ce, isCall := n.(*ast.CallExpr); isCall {
+			if id, isId := ce.Fun.(*ast.Ident); isId && id.Name == "delete" && len(ce.Args) == 2 &&
+				p.str(ce.Args[0]) == "state.localAuthData" && p.str(ce.Args[1]) == arg {
+				ok = true
+			}
+		}
+		return true
+	})
+	return ok
 }
 
 func c05ConsultsExpiry(p *pkgInfo, fd *ast.FuncDecl, entry string) bool {
